@@ -969,6 +969,16 @@ fn c13_cubes(
                     mask |= 1 << v.value();
                     val |= 1 << v.value();
                 }
+                // documented: "it is ensured that the goal is consistent with the respective interpretation" -
+                // a cube may leave the goal variable free, but must not fix it to the opposite value
+                if gv < nvars && (mask >> gv) & 1 == 1 && ((val >> gv) & 1 == 1) != goal {
+                    rep.violation(
+                        "cube-contradicts-goal",
+                        format!("{}: cube {:?}/{:?} fixes the goal variable to the opposite of the goal value", what, neg, pos),
+                        replay(what.clone()),
+                    );
+                    return false;
+                }
                 let cube = TT::from_fn(nvars, |a| a & mask == val);
                 covered += cube.count_ones();
                 union = union.or(&cube);
